@@ -30,7 +30,8 @@ type c18Case struct {
 	entries []c18Entry
 	list    string
 	fail    bool
-	stale   int // 0: no README.md before the run, 1: a short old one, 2: an old one longer than any rendering
+	stale   int    // 0: no README.md before the run, 1: a short old one, 2: an old one longer than any rendering
+	scale   string // non-empty: a case of the scale family (not produced by the explorer's driver)
 }
 
 var c18Titles = []string{" Title", "", " Several words here", "  Double", " "}
@@ -104,6 +105,73 @@ func c18Driver(maxEntries int) func(c *explore.Chooser) *c18Case {
 		cs.stale = c.Choose(3)
 		return cs
 	}
+}
+
+// c18ScaleCases: lists of 5..65 entries (thorough 200) x content sizes (small, 5 kB, 70 kB in one / in every
+// entry) x a missing file at no / the first / a middle / the last position x what README.md was there
+// before.  Every list of up to 2-3 entries is enumerated; a renderer that buffers, truncates or drops
+// beyond a size, or that stops at the first of many errors in the wrong place, only shows here.
+func c18ScaleCases(thorough bool) []*c18Case {
+	sizes := []int{5, 9, 17, 33, 65}
+	if thorough {
+		sizes = append(sizes, 129, 200)
+	}
+	big := func(n int, tag string) string {
+		var sb strings.Builder
+		for sb.Len() < n {
+			fmt.Fprintf(&sb, "// %s line %d of a long sample\nlet v%d = %d\n", tag, sb.Len(), sb.Len(), sb.Len())
+		}
+		return sb.String()
+	}
+	var out []*c18Case
+	for _, n := range sizes {
+		for contentKind := 0; contentKind < 4; contentKind++ {
+			if contentKind == 3 && n > 33 {
+				continue // 70 kB in every entry only for the shorter lists
+			}
+			for missing := 0; missing < 4; missing++ {
+				for stale := 0; stale < 3; stale++ {
+					if stale == 1 && (missing != 0 || contentKind != 0) {
+						continue
+					}
+					cs := &c18Case{stale: stale}
+					var lines []string
+					for i := 0; i < n; i++ {
+						e := c18Entry{name: fmt.Sprintf("e%03d.fo", i)}
+						e.line = e.name + c18Titles[i%3]
+						if j := strings.Index(e.line, " "); j >= 0 {
+							e.title = e.line[j+1:]
+						} else {
+							e.title = e.line
+						}
+						e.content = c18Contents[i%len(c18Contents)]
+						switch contentKind {
+						case 1:
+							if i == n/2 {
+								e.content = big(5000, e.name)
+							}
+						case 2:
+							if i == n/2 {
+								e.content = big(70000, e.name)
+							}
+						case 3:
+							e.content = big(70000, e.name)
+						}
+						if (missing == 1 && i == 0) || (missing == 2 && i == n/2+1) || (missing == 3 && i == n-1) {
+							e.missing = true
+							cs.fail = true
+						}
+						cs.entries = append(cs.entries, e)
+						lines = append(lines, e.line)
+					}
+					cs.list = strings.Join(lines, "\n") + "\n"
+					cs.scale = fmt.Sprintf("entries=%d content=%d missing=%d stale=%d", n, contentKind, missing, stale)
+					out = append(out, cs)
+				}
+			}
+		}
+	}
+	return out
 }
 
 // reference renderer, written from the statement; header learnt from the checked-in README
@@ -237,6 +305,15 @@ func checkC18(c *core.Ctx) {
 		})
 		c.Count(0, st.States, st.Transitions, 0)
 		c.Set("explorer", map[string]any{"executions": st.Executions, "max_depth": st.MaxDepth, "stopped_early": st.Stopped})
+		sc := c18ScaleCases(c.Thorough())
+		for _, cs := range sc {
+			if c.Expired() {
+				c.NotExhaustive("scale family not completed")
+				break
+			}
+			jobs <- cs
+		}
+		c.Set("scale_family_cases", len(sc))
 	}
 	close(jobs)
 	wg.Wait()
@@ -262,6 +339,13 @@ func c18RunOne(c *core.Ctx, sc *impl.Scratch, bsm, header string, exact bool, cs
 		staleText = "old\n"
 	case 2:
 		staleText = strings.Repeat("### stale section of an entry that is no longer listed\n\n```\nold\n```\n\n", 60)
+		if cs.scale != "" {
+			total := 0
+			for _, e := range cs.entries {
+				total += len(e.content) + 200
+			}
+			staleText = strings.Repeat(staleText, 1+total/len(staleText))
+		}
 	}
 	if cs.stale != 0 {
 		os.WriteFile(filepath.Join(dir, "README.md"), []byte(staleText), 0o644)
@@ -275,15 +359,25 @@ func c18RunOne(c *core.Ctx, sc *impl.Scratch, bsm, header string, exact bool, cs
 		rerr = os.ErrNotExist
 	}
 	c.Count(1, 0, 0, 1)
-	c.DistinctNT(fmt.Sprint(files), len(cs.entries) >= 1)
+	if cs.scale != "" {
+		c.DistinctNT("scale:"+cs.scale, true)
+	} else {
+		c.DistinctNT(fmt.Sprint(files), len(cs.entries) >= 1)
+	}
 	c.Hist("by_entries", fmt.Sprint(len(cs.entries)), 1)
 	exp := "renders"
 	if cs.fail {
 		exp = "fails"
 	}
 	c.Hist("expected", exp, 1)
-	c.Sample(map[string]any{"list": cs.list, "files": files, "expected": exp})
+	if cs.scale == "" {
+		c.Sample(map[string]any{"list": cs.list, "files": files, "expected": exp})
+	}
 	rep := func(obs string) map[string]any {
+		if cs.scale != "" {
+			small := map[string]string{"list.txt": trunc(cs.list, 400)}
+			return map[string]any{"scale_case": cs.scale, "input": small, "expected": exp, "observed": trunc(obs, 2000)}
+		}
 		return map[string]any{"choices": cs.choices, "input": files, "expected": exp, "observed": obs}
 	}
 	if r.TimedOut {
